@@ -7,4 +7,5 @@ import DafRel.Props.C03
 #print axioms DafRel.Props.C03.apply_with_options_sound
 #print axioms DafRel.Props.C03.same_as_plain_application
 #print axioms DafRel.Props.C03.valid_operation_never_column_error
+#print axioms DafRel.Props.C03.join_backtracking_sound
 #print axioms DafRel.Props.C03.bridge_commute_used_by_backtracking
